@@ -23,7 +23,7 @@ from vlib.core import WORK, Result, assert_in_tree, exc_sig
 assert_in_tree(during)
 
 PID = "C24"
-RULE = ("cases: store kind (Suber / IoSuber / IoSetSuber) x <= 40 operations (put, pin, add, get, getFirst, getLast, pop, rem, "
+RULE = ("cases (incl. a queue-like class: 3 keys, front pops interleaved with appends): store kind (Suber / IoSuber / IoSetSuber) x <= 40 operations (put, pin, add, get, getFirst, getLast, pop, rem, "
         "rem(val), cnt) over a 12 key universe: a, b, ab, a.b, a.b.c, a_b, ('a','b') (same key as a_b), a., a.c, b.a, c, and - in "
         "the 'suffix-shaped' class only - a.<32 hex digits> keys; 5 values; non-trivial = the history touches two keys where one "
         "is a proper prefix of the other and both hold >= 2 values at some point (Suber: both hold a value); distinct = "
@@ -236,9 +236,20 @@ def _strategy(kind=None, suffixy=False):
                                   "ops": st.lists(st.one_of(op, hot, hot), min_size=1, max_size=40)})
 
 
+def _queue_strategy():
+    """Insertion-ordered stores used as queues: few keys, values taken from the front and appended at the back again and
+    again, so that a key's hidden ordinals no longer start at 0 and have gaps."""
+    vals = st.lists(st.sampled_from(VALS), min_size=1, max_size=4)
+    names = ["put", "put", "add", "pop", "pop", "pop", "remval", "get", "cnt", "getFirst", "getLast", "pin"]
+    op = st.tuples(st.sampled_from(names), st.sampled_from([0, 3, 4]), vals).map(list)
+    return st.fixed_dictionaries({"kind": st.sampled_from(["io", "io", "ioset"]), "suffixy": st.just(False),
+                                  "ops": st.lists(op, min_size=6, max_size=40)})
+
+
 def searches(tier):
     q = tier == "quick"
-    return [("histories", _strategy(), 500 if q else 3000),
+    return [("histories", _strategy(), 800 if q else 3000),
+            ("queue-like", _queue_strategy(), 500 if q else 2500),
             ("suffix-shaped-keys", _strategy(suffixy=True), 200 if q else 1500)]
 
 
